@@ -21,51 +21,9 @@
 #include <bxdecay0/event.h>
 #include <bxdecay0/genbbsub.h>
 
-#include "refshim.h"
-#include "wellformed.h"
+#include "diffcore.h"
 
 using namespace verif;
-
-static FILE * OUT = stdout;
-
-static std::string fmt(const char * f, ...)
-{
-  char buf[1024];
-  va_list ap;
-  va_start(ap, f);
-  vsnprintf(buf, sizeof buf, f, ap);
-  va_end(ap);
-  return buf;
-}
-
-struct Mismatch
-{
-  std::string key, detail, tape, ref, port, steer;
-  long count = 0;
-};
-
-struct Stats
-{
-  std::string name;
-  long events = 0, y90_waived = 0, pair_swaps = 0;
-  size_t max_draws = 0;
-  std::unordered_set<uint64_t> sigs;
-  std::map<std::string, Mismatch> mm;
-  std::map<std::string, Mismatch> wf; // C04 monitor violations
-  std::vector<size_t> draws_hist;
-  long cap_hits = 0;
-  std::string sample;
-};
-
-static uint64_t hash_str(const std::string & s)
-{
-  uint64_t h = 1469598103934665603ULL;
-  for (unsigned char c : s) {
-    h ^= c;
-    h *= 1099511628211ULL;
-  }
-  return h;
-}
 
 struct Runner
 {
@@ -185,17 +143,6 @@ struct Runner
   }
 };
 
-static std::vector<double> grid_values(int n)
-{
-  std::vector<double> g;
-  for (int j = 1; j <= 12; j++) {
-    g.push_back(std::pow(10.0, -j));
-    g.push_back(1.0 - std::pow(10.0, -j));
-  }
-  for (int i = 0; i < n; i++) g.push_back((i + 0.5) / n);
-  return g;
-}
-
 int main(int argc, char ** argv)
 {
   if (argc < 7) {
@@ -280,25 +227,13 @@ int main(int argc, char ** argv)
     std::sort(s.draws_hist.begin(), s.draws_hist.end());
     size_t p999 = s.draws_hist.empty() ? 0 : s.draws_hist[(size_t)(0.999 * (s.draws_hist.size() - 1))];
     fprintf(OUT, "{\"name\":%s,\"events\":%ld,\"distinct_signatures\":%zu,\"max_draws\":%zu,\"p999_draws\":%zu,\"cells\":%zu,\"thresholds\":%zu,"
-                 "\"y90_waived\":%ld,\"cap_hits\":%ld,\"sample\":%s,\"mismatches\":[",
+                 "\"y90_waived\":%ld,\"cap_hits\":%ld,\"sample\":%s,",
             jstr(name).c_str(), s.events, s.sigs.size(), s.max_draws, p999, K, thr.size(), s.y90_waived, s.cap_hits,
             s.sample.empty() ? "null" : s.sample.c_str());
-    bool first = true;
-    for (auto & kv : s.mm) {
-      Mismatch & m = kv.second;
-      fprintf(OUT, "%s{\"key\":%s,\"count\":%ld,\"detail\":%s,\"steer\":%s,\"tape\":%s,\"ref\":%s,\"port\":%s}", first ? "" : ",",
-              jstr(m.key).c_str(), m.count, jstr(m.detail).c_str(), jstr(m.steer).c_str(), m.tape.c_str(), m.ref.c_str(), m.port.c_str());
-      first = false;
-    }
-    fprintf(OUT, "],\"wellformed\":[");
-    first = true;
-    for (auto & kv : s.wf) {
-      Mismatch & m = kv.second;
-      fprintf(OUT, "%s{\"key\":%s,\"count\":%ld,\"detail\":%s,\"steer\":%s,\"tape\":%s,\"port\":%s}", first ? "" : ",",
-              jstr(m.key).c_str(), m.count, jstr(m.detail).c_str(), jstr(m.steer).c_str(), m.tape.c_str(), m.port.c_str());
-      first = false;
-    }
-    fprintf(OUT, "]}\n");
+    emit_mismatches(OUT, "mismatches", s.mm);
+    fprintf(OUT, ",");
+    emit_mismatches(OUT, "wellformed", s.wf);
+    fprintf(OUT, "}\n");
     fflush(OUT);
   }
   return 0;
